@@ -18,7 +18,7 @@ EXPLANATION = ('For every sequence of molecule instances within the bound (3 loa
                'the explored paths exhaust the ranges.  On every path the molecules returned (iteration, len, composition, integer and '
                'negative indexing, slicing) are compared with the instances the file was assembled from: contiguous disjoint atom runs in file '
                'order, atom names equal to the topology, coordinates equal to the file.  A topology without a matching run must raise IOError.')
-BOUNDS = {'quick': {'compositions': 'all sequences of 1..4 instances over 4 species (340), 29 with a self-overlapping two-residue dimer, 8 with per-molecule residue numbering', 'load orders': 'all permutations of the loaded species present (symbolic)',
+BOUNDS = {'quick': {'compositions': 'all sequences of 1..4 instances over 4 species (340), 29 with a self-overlapping two-residue dimer, 22 with residue kinds shared between species (polymer / cap / free monomer), 8 with per-molecule residue numbering', 'load orders': 'all permutations of the loaded species present (symbolic)',
                     'index': 'every k in [-len, len)', 'slices': 'every 0 <= a <= b <= len'},
           'thorough': {'compositions': 'all sequences of 1..5 instances (1364) and selected 6-instance interleavings'}}
 OUTSIDE = ['species whose residue signatures are not distinct (outside the statement)', 'random longer systems', 'coordinates are concrete decimals (text)']
@@ -33,8 +33,13 @@ SPECIES = {
     'P': ('PEP', [('PA', ['N1']), ('PB', ['CA', 'CB']), ('PA', ['N1'])], [(0, 1), (1, 2), (2, 3)]),
     'W': ('SOL', [('SOL', ['OW', 'H1', 'H2'])], [(0, 1), (0, 2)]),
     'D': ('DIM', [('MON', ['M1']), ('MON', ['M1'])], [(0, 1)]),          # two identical residues: the pattern overlaps itself
+    # residue kinds shared between species: a polymer starting with a repeated residue, a cap ending with that residue and
+    # the same residue alone (unloaded): a window search must not skip past a partial match
+    'Q': ('POL', [('MN', ['M1']), ('MN', ['M1']), ('TR', ['T1'])], [(0, 1), (1, 2)]),
+    'C': ('CAP', [('HD', ['H1']), ('MN', ['M1'])], [(0, 1)]),
+    'N': ('MNF', [('MN', ['M1'])], []),
 }
-LOADABLE = 'LIPD'
+LOADABLE = 'LIPDQC'
 
 
 def _build(comp, numbering='fresh'):
@@ -75,6 +80,7 @@ def cases(tier):
     comps = [c for c in comps if any(ch in 'LIP' for ch in c)]
     # the self-overlapping dimer, alone / adjacent / interleaved (smaller set: it multiplies the alphabet)
     comps += [''.join(p) for l in range(1, 4) for p in itertools.product('DIW', repeat=l) if 'D' in p] + ['DDDD', 'LDDP', 'DPDD']
+    comps += [''.join(p) for l in range(1, 4) for p in itertools.product('QCN', repeat=l) if 'Q' in p] + ['NQCQ', 'QNNQ', 'CQCQ']
     # per-molecule residue numbering for the multi-residue species
     comps += ['#' + c for c in ('L', 'LL', 'PL', 'LPL', 'PP', 'LIP', 'PWL', 'LLL')]
     if tier == 'thorough':
